@@ -10,7 +10,7 @@ use crate::engine::pick_idx;
 #[derive(Clone, Debug, PartialEq, Eq, Hash, Serialize, Deserialize)]
 pub struct Gt {
     /// allele indices, None = '.'
-    pub alleles: Vec<Option<u8>>,
+    pub alleles: Vec<Option<u64>>,
     /// separators between consecutive alleles, true = '|' (phased)
     pub phased: Vec<bool>,
 }
@@ -30,7 +30,7 @@ pub enum GtClass {
 impl Gt {
     pub fn diploid(a: Option<u8>, b: Option<u8>, phased: bool) -> Self {
         Gt {
-            alleles: vec![a, b],
+            alleles: vec![a.map(u64::from), b.map(u64::from)],
             phased: vec![phased],
         }
     }
@@ -77,7 +77,7 @@ impl Gt {
             (true, true) => GtClass::MissingAndMultiallelic,
             (true, false) => GtClass::Missing,
             (false, true) => GtClass::Multiallelic,
-            (false, false) => GtClass::Call(self.alleles.iter().map(|a| a.unwrap()).sum()),
+            (false, false) => GtClass::Call(self.alleles.iter().map(|a| a.unwrap() as u8).sum()),
         }
     }
 
@@ -87,7 +87,7 @@ impl Gt {
     pub fn is_skip(&self) -> bool {
         matches!(self.class(), GtClass::Missing | GtClass::Multiallelic | GtClass::MissingAndMultiallelic)
     }
-    pub fn max_allele(&self) -> u8 {
+    pub fn max_allele(&self) -> u64 {
         self.alleles.iter().flatten().copied().max().unwrap_or(0)
     }
 }
@@ -272,9 +272,9 @@ pub fn gt_strategy(odd_ploidy: bool, missing_weight: u32, multi_weight: u32) -> 
         1 => (2u8..=3, any::<bool>(), any::<bool>()).prop_map(|(a, swap, p)| if swap { Gt::diploid(None, Some(a), p) } else { Gt::diploid(Some(a), None, p) }),
     ];
     let odd = prop_oneof![
-        2 => (0u8..=1).prop_map(|a| Gt { alleles: vec![Some(a)], phased: vec![] }),
-        2 => (prop::option::weighted(0.9, 0u8..=2), 0u8..=1, 0u8..=1, any::<bool>(), any::<bool>()).prop_map(|(a, b, c, p, q)| Gt { alleles: vec![a, Some(b), Some(c)], phased: vec![p, q] }),
-        1 => (0u8..=1, any::<bool>()).prop_map(|(a, p)| Gt { alleles: vec![Some(a); 4], phased: vec![p; 3] }),
+        2 => (0u8..=1).prop_map(|a| Gt { alleles: vec![Some(a as u64)], phased: vec![] }),
+        2 => (prop::option::weighted(0.9, 0u8..=2), 0u8..=1, 0u8..=1, any::<bool>(), any::<bool>()).prop_map(|(a, b, c, p, q)| Gt { alleles: vec![a.map(u64::from), Some(b as u64), Some(c as u64)], phased: vec![p, q] }),
+        1 => (0u8..=1, any::<bool>()).prop_map(|(a, p)| Gt { alleles: vec![Some(a as u64); 4], phased: vec![p; 3] }),
     ];
     let mut options: Vec<(u32, BoxedStrategy<Gt>)> = vec![(70, complete.boxed())];
     if missing_weight > 0 {
@@ -377,8 +377,8 @@ pub fn finish_callset(contig_bases: Vec<String>, n_samples: usize, name_bases: V
         let n_alt = r.n_alt;
         for g in r.gts.iter_mut() {
             for a in g.alleles.iter_mut().flatten() {
-                if *a > n_alt {
-                    *a = n_alt;
+                if *a > n_alt as u64 {
+                    *a = n_alt as u64;
                 }
             }
         }
@@ -457,7 +457,7 @@ pub fn make_selected_diploid(cs: &mut CallSet, selected: &[bool]) {
     for r in cs.records.iter_mut() {
         for (i, g) in r.gts.iter_mut().enumerate() {
             if selected[i] && g.alleles.len() != 2 {
-                let a = g.alleles.first().copied().flatten().unwrap_or(0).min(1);
+                let a = g.alleles.first().copied().flatten().unwrap_or(0).min(1) as u8;
                 *g = Gt::diploid(Some(a), Some(0), false);
             }
         }
